@@ -7,15 +7,17 @@ LEVEL = 'proof'
 RULE = ('one case = one generated program (DATA statements scattered over numbered lines and multi-statement lines, '
         'among fillers with string literals / number tokens / two-byte tokens containing the bytes of ":" , NUL, '
         'quote, REM and DATA, never-executed IF branches, REM tails) with 4..14 interleaved READ (1..4 string and '
-        'numeric variables) / RESTORE / RESTORE n statements; non-trivial = at least one READ is executed')
+        'numeric variables, among them integer variables on items outside -32768..32767) / RESTORE / RESTORE n statements; non-trivial = at least one READ is executed')
 EXPLANATION = ('theorems (PcbV.Props.C22) over all well-formed program layouts: read_order, restore_spec, restore_line, '
-               'out_of_data, syntax_error_on_data_line; correspondence: the Lean transcription of read_/restore_/'
+               'out_of_data, syntax_error_on_data_line, refused_read_keeps_item (a READ whose assignment is refused -- '
+               'Overflow into a % variable -- ends at the READ statement and does not consume the item); correspondence: the Lean transcription of read_/restore_/'
                'skip_to_token/read_number runs on the session\'s real bytecode and line table and must reproduce every '
                'value assigned and every ERR/ERL; oracle: a Python list of the items the generator emitted')
 TRUSTED_BASE = ['model PcbV.Model.DataRead is a hand transcription of Interpreter.read_/restore_/erl_, '
                 'Program.get_line_number and the codestream helpers',
                 'number conversion (values.from_repr) is a parameter of the model: the model yields the literal text, '
-                'the harness converts it with the implementation\'s own from_repr']
+                'the harness converts it with the implementation\'s own from_repr; likewise a refused assignment (Overflow) is a '
+                'parameter of readVarsR: the generator marks the integer variables it put on out-of-range integer items']
 ASSUMPTIONS = ['program.line_numbers maps every line number to the offset of the NUL that starts the line '
                '(checked by the harness on every generated program)',
                'the bytecode ends with NUL NUL NUL']
@@ -45,6 +47,7 @@ NUM_FORMS = [
     (b'3#', 3), (b'4!', 4), (b'7%', 7), (b'2.5#', 2.5), (b'1.5!', 1.5), (b'&H1F', 31), (b'&hff', 255),
     (b'&HFFFF', -1), (b'&H7FFF', 32767), (b'&H8000', -32768), (b'&H0', 0), (b'&O17', 15), (b'&17', 15),
     (b'&o777', 511), (b'&O177777', -1), (b'&O0', 0), (b'123456', 123456), (b'-99', -99),
+    (b'40000', 40000), (b'-32769', -32769), (b'32768', 32768), (b'-40000', -40000),
 ]
 # numeric-looking prefix followed by something else: a non-numeric item
 NONNUM_FORMS = [b'12abc', b'1.5.2', b'--5', b'1E5E', b'5 %', b'3 apples', b'&HZZ', b'&O9', b'1E +5', b'7!!', b'2#x',
@@ -233,7 +236,7 @@ class Gen(object):
                         parts.append(b'K%%=%d:RESTORE %d' % (k, target))
                     else:
                         nv = rng.choice([1, 1, 1, 2, 2, 3, 4])
-                        vs, expect, err, init = [], [], None, []
+                        vs, expect, err, init, refused = [], [], None, [], None
                         op_tracked = tracked
                         for _ in range(nv):
                             varno += 1
@@ -250,8 +253,12 @@ class Gen(object):
                                 init.append(name + b'="%s"' % SENT_S)
                             else:
                                 sig = rng.choice([b'#', b'#', b'!', b'%'])
-                                if sig == b'%' and not (it is not None and isinstance(it['n'], int)
-                                                        and -32768 <= it['n'] <= 32767):
+                                if (it is not None and isinstance(it['n'], int) and not -32768 <= it['n'] <= 32767
+                                        and rng.random() < 0.5):
+                                    # an integer variable on an item that does not fit: Overflow at the READ
+                                    # statement, and the item stays the next one to be read
+                                    sig = b'%'
+                                if sig == b'%' and not (it is not None and isinstance(it['n'], int)):
                                     sig = b'#'
                                 if sig == b'%' and (err is not None or not tracked):
                                     sig = b'#'
@@ -273,11 +280,14 @@ class Gen(object):
                                     err = [2, flat[idx][1]]
                                 elif it['n'] in ('quirk', None):
                                     tracked = False
+                                elif sig == b'%' and not -32768 <= it['n'] <= 32767:
+                                    err = [6, no]
+                                    refused = len(vs) - 1
                                 else:
                                     expect.append([l1(name), 'n', it['n']])
                                     idx += 1
                         ops.append(dict(k=k, line=no, kind='read', vars=vs, tracked=op_tracked,
-                                        expect=expect, err=err, complete=tracked))
+                                        expect=expect, err=err, complete=tracked, refused=refused))
                         parts.append(b':'.join([b'K%%=%d' % k] + init + [b'READ ' + b','.join(b1(v) for v in vs)]))
             text_lines.append((no, parts))
         prog = [b'%d ON ERROR GOTO %d:DIM ER%%(%d),EL!(%d)' % (first_no, handler_no, k + 1, k + 1)]
@@ -410,7 +420,10 @@ def model_line(case, res):
         elif op['kind'] == 'restoreline':
             ops.append('R%d' % op['target'])
         else:
-            ops.append('d' + ''.join('s' if v.endswith('$') else 'n' for v in op['vars']))
+            # 'o': a numeric variable whose assignment the store refuses with Overflow (the generator put an integer
+            # variable on an integer item outside -32768..32767); the model takes the refusal as a parameter
+            ops.append('d' + ''.join('s' if v.endswith('$') else 'o' if j == op.get('refused') else 'n'
+                                     for j, v in enumerate(op['vars'])))
     tbl = ','.join('%d:%d' % kv for kv in sorted(res['table'].items())) or '-'
     return 'run %s %s %s' % (res['code'].hex() or '-', tbl, ';'.join(ops))
 
@@ -492,7 +505,7 @@ def oracle(case, res):
         elif o['err'][1] != op['err'][1]:
             name = {2: 'syntax-error-erl-not-data-line', 4: 'out-of-data-erl'}.get(op['err'][0], 'erl')
             fails.append((name, '%s: expected ERR/ERL %s, got %s' % (where, op['err'], o['err'])))
-        if op['err'] is not None and op['err'][0] in (2, 4):
+        if op['err'] is not None and op['err'][0] in (2, 4, 6):
             # variables after the failing one stay untouched
             n_ok = len(op['expect'])
             for name in op['vars'][n_ok + 1:]:
